@@ -20,7 +20,7 @@ OkCmp(e) == LET c == Cmp(e.a, e.b) IN
             \* the order agrees with difference (same alignment only)
             /\ (e.ta = e.tb => (c < 0) = (WCmp(Diff(e.ta, e.a, e.b), WZero) < 0))
 OkConv(e) == AlignedInput(e.from, e.a) /\ e.r = Align(e.to, e.a)
-OkWday(e) == ValidFields(e.a) /\ e.wd = WeekdayOf(e.a) /\ e.yd = YearDayOf(e.a)
+OkWday(e) == ValidFields(e.a) /\ e.ub = 0 /\ e.wd = WeekdayOf(e.a) /\ e.yd = YearDayOf(e.a)
 OkNextWd(e) == /\ AlignedInput(TagDay, e.a)
                /\ InI64(NextWeekday(e.a, e.wd)[1]) =>
                     /\ e.ub = 0 /\ e.r = NextWeekday(e.a, e.wd)
